@@ -201,6 +201,9 @@ func (d *Descriptor) readAsSlice(out Outputter, data []byte) (n int, err error) 
 			if err != nil {
 				return 0, err
 			}
+			if n <= 0 {
+				return 0, fmt.Errorf("corrupt data reading slice element")
+			}
 			offset += n
 		}
 		return offset, nil
@@ -223,8 +226,7 @@ func (d *Descriptor) readAsSlice(out Outputter, data []byte) (n int, err error) 
 			if s == 0 {
 				continue
 			}
-			end := offset + int(s)
-			if end > len(data) {
+			if s > uint64(len(data)-offset) {
 				return 0, fmt.Errorf("corrupt data reading slice entry %d", i)
 			}
 
@@ -287,10 +289,10 @@ func (d *Descriptor) readAsMapEntry(out Outputter, data []byte) (n int, err erro
 				return 0, fmt.Errorf("varuint overflow reading field %d of %s", index, d.Name)
 			}
 			offset += n
-			fl = int(v) + offset
-			if fl > l {
-				return 0, fmt.Errorf("length %d of field %d of %s exceeds data length", fl, index, d.Name)
+			if v > uint64(l-offset) {
+				return 0, fmt.Errorf("length %d of field %d of %s exceeds data length", v, index, d.Name)
 			}
+			fl = int(v) + offset
 		}
 
 		n, err := elt.read(out, data[offset:fl])
@@ -342,10 +344,10 @@ func (d *Descriptor) readAsStruct(out Outputter, data []byte) (n int, err error)
 				return 0, fmt.Errorf("varuint overflow reading field %d of %s", index, d.Name)
 			}
 			offset += n
-			fl = int(v) + offset
-			if fl > l {
-				return 0, fmt.Errorf("length %d of field %d of %s exceeds data length", fl, index, d.Name)
+			if v > uint64(l-offset) {
+				return 0, fmt.Errorf("length %d of field %d of %s exceeds data length", v, index, d.Name)
 			}
+			fl = int(v) + offset
 		}
 
 		out.NameField(elt.Name)
@@ -378,6 +380,9 @@ func (d *Descriptor) readAsJSON(out Outputter, data []byte) (n int, err error) {
 		if s == 0 {
 			continue
 		}
+		if s > uint64(len(data)-offset) {
+			return 0, fmt.Errorf("length %d of slice entry %d exceeds the length of the data", s, i)
+		}
 
 		n, err := d.readJSONObjectKV(out, data[offset:offset+int(s)])
 		if err != nil {
@@ -405,10 +410,13 @@ func (d *Descriptor) readJSONObjectKV(out Outputter, data []byte) (n int, err er
 		case 1:
 			// When using this for reading arrays we simply don't see this index
 			l, n := plenccore.ReadVarUint(data[offset:])
-			if n < 0 {
+			if n <= 0 {
 				return 0, fmt.Errorf("bad length on string field")
 			}
 			offset += n
+			if l > uint64(len(data)-offset) {
+				return 0, fmt.Errorf("length %d exceeds the length of the data", l)
+			}
 			var key string
 
 			n, err := StringCodec{}.Read(data[offset:offset+int(l)], unsafe.Pointer(&key), wt)
@@ -428,10 +436,13 @@ func (d *Descriptor) readJSONObjectKV(out Outputter, data []byte) (n int, err er
 			switch jType {
 			case jsonTypeString:
 				l, n := plenccore.ReadVarUint(data[offset:])
-				if n < 0 {
+				if n <= 0 {
 					return 0, fmt.Errorf("bad length on string field")
 				}
 				offset += n
+				if l > uint64(len(data)-offset) {
+					return 0, fmt.Errorf("length %d exceeds the length of the data", l)
+				}
 				var v string
 				n, err := StringCodec{}.Read(data[offset:offset+int(l)], unsafe.Pointer(&v), wt)
 				if err != nil {
@@ -485,10 +496,13 @@ func (d *Descriptor) readJSONObjectKV(out Outputter, data []byte) (n int, err er
 
 			case jsonTypeNumber:
 				l, n := plenccore.ReadVarUint(data[offset:])
-				if n < 0 {
+				if n <= 0 {
 					return 0, fmt.Errorf("bad length on JSON number field")
 				}
 				offset += n
+				if l > uint64(len(data)-offset) {
+					return 0, fmt.Errorf("length %d exceeds the length of the data", l)
+				}
 				var v json.Number
 				n, err := StringCodec{}.Read(data[offset:offset+int(l)], unsafe.Pointer(&v), wt)
 				if err != nil {
